@@ -15,6 +15,10 @@
  *   for the m variant ("-" for none): "<wp>" = matrix, shift and output all at wp bits,
  *   "<wpH>:<wpS>:<wpO>" = matrix entries : shift : output at different precisions (the entries are
  *   doubles, hence exactly representable at every precision).
+ *   A number may also be written x[-]<hex integer>@<e> (= +-hex * 2^e, an exact dyadic with more bits than a
+ *   double): such a case is run through the m variants only, and the entries as stored in the mpf inputs are
+ *   echoed on an `I <id> <spec> ...` line (shift re im, then the entries) so that the caller can verify that the
+ *   function received exactly the intended numbers.
  *   shift == 0 exactly  -> the unshifted entry point is called,
  *   otherwise           -> the shifted one.
  *
@@ -70,6 +74,46 @@ print_mpf (mpf_t x)
   free (s);
 }
 
+/* token = 16 hex digits (bit pattern of a double) or x[-]<hex integer>@<e> meaning +-hex * 2^e */
+static int
+tok_is_zero (const char *s)
+{
+  if (s[0] != 'x')
+    return hex2d (s) == 0.0;
+  s++;
+  if (*s == '-')
+    s++;
+  for (; *s && *s != '@'; s++)
+    if (*s != '0')
+      return 0;
+  return 1;
+}
+
+static void
+set_mpf_tok (mpf_t x, const char *s)
+{
+  if (s[0] != 'x')
+    {
+      mpf_set_d (x, hex2d (s));
+      return;
+    }
+  char buf[512];
+  strncpy (buf, s + 1, 511);
+  buf[511] = 0;
+  char *at = strchr (buf, '@');
+  long e = 0;
+  if (at)
+    {
+      *at = 0;
+      e = atol (at + 1);
+    }
+  mpf_set_str (x, buf, 16);
+  if (e >= 0)
+    mpf_mul_2exp (x, x, (unsigned long)e);
+  else
+    mpf_div_2exp (x, x, (unsigned long)(-e));
+}
+
 int
 main (int argc, char **argv)
 {
@@ -92,8 +136,13 @@ main (int argc, char **argv)
       char wps[256];
       strncpy (wps, strtok_r (NULL, " \n", &save), 255);
       wps[255] = 0;
-      double sre = hex2d (strtok_r (NULL, " \n", &save));
-      double sim = hex2d (strtok_r (NULL, " \n", &save));
+      char *tsre = strtok_r (NULL, " \n", &save);
+      char *tsim = strtok_r (NULL, " \n", &save);
+      if (!tsre || !tsim)
+        return 3;
+      int wide = (tsre[0] == 'x' || tsim[0] == 'x');
+      char **tre = malloc (sizeof (char *) * n * n);
+      char **tim = malloc (sizeof (char *) * n * n);
       double *hre = malloc (sizeof (double) * n * n);
       double *him = malloc (sizeof (double) * n * n);
       size_t k;
@@ -106,12 +155,25 @@ main (int argc, char **argv)
               fprintf (stderr, "c20_hess: short line for case %s\n", id);
               return 3;
             }
-          hre[k] = hex2d (a);
-          him[k] = hex2d (b);
+          tre[k] = a;
+          tim[k] = b;
+          if (a[0] == 'x' || b[0] == 'x')
+            wide = 1;
         }
-      int shifted = !(sre == 0.0 && sim == 0.0);
+      double sre = 0.0, sim = 0.0;
+      if (!wide)
+        {
+          sre = hex2d (tsre);
+          sim = hex2d (tsim);
+          for (k = 0; k < n * n; k++)
+            {
+              hre[k] = hex2d (tre[k]);
+              him[k] = hex2d (tim[k]);
+            }
+        }
+      int shifted = wide ? !(tok_is_zero (tsre) && tok_is_zero (tsim)) : !(sre == 0.0 && sim == 0.0);
 
-      if (strchr (variants, 'f'))
+      if (strchr (variants, 'f') && !wide)
         {
           cplx_t *H = malloc (sizeof (cplx_t) * n * n);
           cplx_t shift, out;
@@ -131,7 +193,7 @@ main (int argc, char **argv)
           free (H);
         }
 
-      if (strchr (variants, 'd'))
+      if (strchr (variants, 'd') && !wide)
         {
           cdpe_t *H = malloc (sizeof (cdpe_t) * n * n);
           cdpe_t shift, out;
@@ -169,8 +231,25 @@ main (int argc, char **argv)
               mpc_init2 (shift, wpS);
               mpc_init2 (out, wpO);
               for (k = 0; k < n * n; k++)
-                mpc_set_d (H[k], hre[k], him[k]);       /* exact at every precision (>= 53 bits) */
-              mpc_set_d (shift, sre, sim);
+                {
+                  set_mpf_tok (mpc_Re (H[k]), tre[k]);  /* doubles: exact at every precision (>= 53 bits) */
+                  set_mpf_tok (mpc_Im (H[k]), tim[k]);  /* wide entries: exact when wpH is large enough; echoed below */
+                }
+              set_mpf_tok (mpc_Re (shift), tsre);
+              set_mpf_tok (mpc_Im (shift), tsim);
+              if (wide)
+                {
+                  /* inputs as seen by the function, for the exactness cross-check of the caller */
+                  printf ("I %s %s", id, w);
+                  print_mpf (mpc_Re (shift));
+                  print_mpf (mpc_Im (shift));
+                  for (k = 0; k < n * n; k++)
+                    {
+                      print_mpf (mpc_Re (H[k]));
+                      print_mpf (mpc_Im (H[k]));
+                    }
+                  printf ("\n");
+                }
               rdpe_set (err, rdpe_zero);
               if (shifted)
                 mps_mhessenberg_shifted_determinant (NULL, H, shift, n, out, err);
@@ -192,6 +271,8 @@ main (int argc, char **argv)
       fflush (stdout);
       free (hre);
       free (him);
+      free (tre);
+      free (tim);
     }
   return 0;
 }
